@@ -98,6 +98,10 @@ def main():
     if not confirmed:
         meta["verdict"] = "rejected: claims not confirmed"
         return finish(meta, out, 1)
+    if "--confirm-only" in args:
+        # the checks are run separately (tools/seed_matrix.py on a copy of the repository)
+        meta["verdict"] = "confirmed; checks not run by this tool"
+        return finish(meta, out, 0)
     # ---- run the checks against the change
     results = {}
     try:
